@@ -291,10 +291,12 @@ def run_pipeline(case):
 
 
 def effective_chain(case):
-    """the chain the pipeline really applies (shortcuts append the implicit Finalize)"""
+    """the chain the pipeline really applies: Environments append BatchSafe(Finalize()) unless the pipe already has one"""
     ch = list(case["chain"])
     if case.get("via") == "shortcuts":
-        ch.append({"f": "finalize", "implicit": True})
+        bstates, _ = batch_states(ch)
+        if not any(st["f"] == "finalize" and b for st, b in zip(ch, bstates)):
+            ch.append({"f": "finalize", "implicit": True})
     return ch
 
 
@@ -437,7 +439,8 @@ def is_lossy(st, inp):
         for d in _action_dicts(inp, st["c"]):
             keys.update(d.keys())
         return 2 if len(keys) > st["n"] else 0
-    if f == "flatten" and any(isinstance(v, (int, float)) and v == 0 for d in _action_dicts(inp) for v in d.values()):
+    if f == "flatten" and any((isinstance(v, (int, float)) and v == 0) or (isinstance(v, (list, tuple)) and any(isinstance(w, (int, float)) and w == 0 for w in v))
+                              for d in _action_dicts(inp) for v in d.values()):
         return 1          # the sparse branch of Flatten drops stored zeros: {"y":0,…} and {…} become the same action
     if f in ("flatten", "finalize") or (f == "repr" and st.get("ca") == "onehot"):
         return 1 if name_clash(inp) else 0
@@ -492,6 +495,8 @@ def compare_step(label, before, after, lossy, fails, tags, where, st=None):
                 if isinstance(ib, int) and ia != ib:
                     if n.get("action") is o["action"]:
                         how = "kept-old"                     # the logged action was not re-represented although the actions were
+                    elif type(n.get("action")).__name__ == "SparseDense" and not n["action"]._values:
+                        how = "empty-sparsedense"            # SparseDense({},n) cannot be iterated and is unequal to itself
                     else:
                         how = "not-member" if ia == "NOT-MEMBER" else "index-changed"
                     lab = label + ("(cc!=ca)" if st is not None and st["f"] == "repr" and st["cc"] != st["ca"] else "")
@@ -606,6 +611,8 @@ WITNESSES = {
     "fixNoiseFeedbacks": {"stream": [{"context": None, "actions": [{"n": [1, 1]}, {"n": [2, 1]}], "rewards": {"k": "list", "v": [[1, 1], [2, 1]]},
                                       "feedbacks": {"k": "fn", "table": [[{"n": [1, 1]}, [5, 1]], [{"n": [2, 1]}, [6, 1]]], "default": FN_DEFAULT}}],
                           "chain": [{"f": "noise", "c": None, "a": {"kind": "fn", "mul": 1, "add": 10}, "seed": 1}]},
+    "fixEmptySparseDense": {"stream": [{"context": None, "action": {"d": []}, "reward": [1, 2], "probability": [1, 4], "actions": [{"d": []}, {"d": [["a", {"n": [1, 1]}]]}]}],
+                            "chain": [{"f": "densify", "n": 2, "m": "lookup", "c": False, "a": True}]},
     "fixFlattenLogged": {"stream": [{"context": None, "action": {"t": [{"n": [3, 1]}, {"t": [{"n": [4, 1]}]}]}, "reward": [1, 2], "probability": [1, 4],
                                      "actions": [{"t": [{"n": [1, 1]}, {"t": [{"n": [2, 1]}]}]}, {"t": [{"n": [3, 1]}, {"t": [{"n": [4, 1]}]}]}]}],
                          "chain": [{"f": "flatten"}]},
@@ -926,7 +933,7 @@ def _copy(x):
 class C10(Property):
     id = "C10"
     prop_modules = ["CobaVerif.Props.C10"]
-    quick_n, thorough_n, search_n = 1500, 40000, 3000
+    quick_n, thorough_n, search_n = 4000, 60000, 3000
     case_timeout = 60
     workers = 8
     rule = ("streams of 1-3 simulated / IGL / logged interactions over one action schema (scalar, string, Categorical, dense tuple/list incl. nested, "
@@ -936,7 +943,9 @@ class C10(Property):
             "non-trivial = some step changed the representation of the actions and there is a functional reward/feedback or a logged action to keep aligned; "
             "distinct by canonical JSON of the case")
     trusted_base = [
-        "Python == on generated action values is mirrored by the model's pyEq (correspondence-checked through every DiscreteReward/BinaryReward look-up)",
+        "Python == on generated action values is mirrored by the model's pyEq (correspondence-checked through every DiscreteReward/BinaryReward look-up); "
+        "object identity (`x in [x]`) is modelled by reflexivity of pyEq",
+        "which of the recorded defects the tree under test still has is detected by replaying the six Lean counterexample witnesses on the real code (Cfg flags)",
         "zlib.crc32 (Densify hashing) and CobaRandom noise values are fed to the model as data: the theorems quantify over all hash functions / noise values",
         "CobaRandom(1).shuffle used by Densify(lookup) is the C05 model's shuffle",
     ]
@@ -945,7 +954,12 @@ class C10(Property):
         "steps that can merge distinct actions by design (Noise on actions, Densify hashing, Densify lookup with fewer slots than keys) are only checked when no two actions were merged",
         "torch tensors excluded; reward noise excluded (it changes rewards by design)",
     ]
-    partial_theorems = {}
+    partial_theorems = {
+        "chain_aligned": "hypothesis chainHypB = every step's encoding is injective on every action set (distinctB of the new actions), reward functions that a "
+                         "step keeps agree on old and new actions, a BinaryReward's argmax and the logged action are members; evaluated by the driver on every case "
+                         "(reported as hyp, checked against the model's own output as (C)); discharged symbolically for Sparsify (sparsify_aligned), Finalize's "
+                         "wrapping (finalize_wrap_aligned) and scalar categorical actions (repr_scalar_actions_distinct); necessary by design for hashing/noise collisions",
+    }
 
     def generate(self, rng, tier):
         return Gen(rng).case(tier)
@@ -962,8 +976,67 @@ class C10(Property):
         ])
         return g.case(tier, focus)
 
+    def exhaustive(self, tier):
+        """every single filter (all parameter choices) and a few two-filter chains on a fixed family of action sets x reward kinds x interaction kinds"""
+        A, B, Cc = ({"c": x, "L": ["a", "b", "c"]} for x in "abc")
+        n = V_n
+        t = lambda *xs: {"t": list(xs)}
+        l = lambda *xs: {"l": list(xs)}
+        d = lambda **kw: {"d": [[k, v] for k, v in kw.items()]}
+        sets = [
+            ("num", [n(1), n(2), n(4)]),
+            ("str", [{"s": "a"}, {"s": "b"}, {"s": "action"}]),
+            ("cat", [B, A, Cc]),
+            ("tuple", [t(A, n(1)), t(B, n(1)), t(B, n(0))]),
+            ("list", [l(n(1), B, {"s": "x"}), l(n(2), B, {"s": "x"}), l(n(1), Cc, {"s": "y"})]),
+            ("nested", [t(n(1), t(n(2), A)), t(n(1), t(n(3), A)), t(n(4), t(n(2), B))]),
+            ("sparse", [d(x=A, y=n(1)), d(x=B, y=n(1)), d(x=B, y=n(2), z={"s": "w"})]),
+            ("sparse-nested", [d(k=t(n(1), n(2))), d(k=t(n(1), n(3)), y=n(1)), d(k=t(n(2), n(2)), y=n(5))]),
+            ("multi", [l(n(1), n(2)), l(n(3)), l(n(2), n(3), n(4))]),
+        ]
+        steps = [{"f": "repr", "cc": cc, "ca": ca} for cc in MODES for ca in MODES]
+        steps += [{"f": "flatten"}, {"f": "finalize"}, {"f": "batch", "n": 2}]
+        steps += [{"f": "sparsify", "c": c, "a": a} for c in (False, True) for a in (False, True)]
+        steps += [{"f": "densify", "n": nf, "m": m, "c": c, "a": True} for nf in (3, 400) for m in ("lookup", "hashing") for c in (False, True)]
+        steps += [{"f": "noise", "c": c, "a": {"kind": "fn", "mul": 2, "add": 1}, "seed": 1} for c in (None, {"kind": "i", "lo": 1, "hi": 3})]
+        steps += [{"f": "noise", "c": None, "a": {"kind": "i", "lo": 1000, "hi": 1000000}, "seed": 3}]
+        chains = [[st] for st in steps]
+        chains += [[{"f": "sparsify", "c": True, "a": True}, {"f": "densify", "n": 16, "m": "lookup", "c": True, "a": True}],
+                   [{"f": "repr", "cc": "onehot", "ca": "onehot_tuple"}, {"f": "flatten"}],
+                   [{"f": "flatten"}, {"f": "repr", "cc": "string", "ca": "onehot"}, {"f": "sparsify", "c": False, "a": True}],
+                   [{"f": "batch", "n": 2}, {"f": "repr", "cc": "onehot", "ca": "onehot"}, {"f": "unbatch"}],
+                   [{"f": "noise", "c": None, "a": {"kind": "fn", "mul": 1, "add": 3}, "seed": 1}, {"f": "sparsify", "c": True, "a": True}, {"f": "finalize"}]]
+        vals = [[3, 1], [5, 2], [-1, 1]]
+        for name, acts in sets:
+            rewards = [{"k": "list", "v": vals},
+                       {"k": "binary", "argmax": acts[1], "value": [1, 1]},
+                       {"k": "discrete", "actions": acts, "values": vals, "default": [0, 1], "dict": False},
+                       {"k": "discrete", "actions": [acts[2], acts[0], acts[1]], "values": [vals[2], vals[0], vals[1]], "default": [0, 1], "dict": False},
+                       {"k": "fn", "table": [[a, v] for a, v in zip(acts, vals)], "default": FN_DEFAULT}]
+            if name == "num":
+                rewards.append({"k": "l1", "argmax": [2, 1]})
+            if name == "multi":
+                rewards.append({"k": "hamming", "argmax": [n(2), n(3)]})
+            second = [acts[1], acts[0]]
+            for ch in chains:
+                for rw in rewards:
+                    it = {"context": acts[0], "actions": acts, "rewards": rw}
+                    it2 = {"context": acts[1], "actions": second, "rewards": {"k": "list", "v": vals[:2]} if rw["k"] == "list" else
+                           {"k": "fn", "table": [[second[0], [7, 1]], [second[1], [8, 1]]], "default": FN_DEFAULT}}
+                    yield {"stream": [it, it2], "chain": ch, "via": "filters"}
+                    igl = dict(it, feedbacks=rewards[-1] if rw["k"] == "list" else rewards[0])
+                    yield {"stream": [igl, _copy(igl)], "chain": ch, "via": "filters"}
+                lg = {"context": None, "action": acts[2], "reward": [1, 2], "probability": [1, 4], "actions": acts}
+                yield {"stream": [lg, dict(_copy(lg), action=acts[0])], "chain": ch, "via": "filters"}
+                yield {"stream": [dict(lg, actions=[acts[2], acts[1]])], "chain": ch, "via": "shortcuts"}
+
     def corpus(self):
         cs = [dict(_copy(c), via="filters") for c in WITNESSES.values()]
+        try:
+            with open(os.path.join(os.path.dirname(os.path.dirname(os.path.dirname(os.path.abspath(__file__)))), "known", "C10.json"), encoding="utf-8") as f:
+                cs += [k["case"] for k in json.load(f).get("findings", []) if k.get("case")]
+        except OSError:
+            pass
         A, B, Cc = ({"c": x, "L": ["a", "b", "c"]} for x in "abc")
         t = lambda *xs: {"t": list(xs)}
         d = lambda **kw: {"d": [[k, v] for k, v in kw.items()]}
@@ -1114,7 +1187,7 @@ class C10(Property):
             return model
         # a SparseDense without stored values cannot be iterated in the real code (IndexError) and is unequal to itself;
         # the model gives it the obvious meaning (all zeros), so such cases are outside the correspondence
-        if any('{"len": ' in json.dumps(enc_any(m), sort_keys=True) and '"z": []' in json.dumps(enc_any(m), sort_keys=True) for _, b, a in steps for m in a):
+        if not cfg.get("fixEmptySparseDense") and any('"z": []' in json.dumps(enc_any(m), sort_keys=True) for _, b, a in steps for m in a):
             tags.append("skipA:empty-sparsedense")
             return model
         if ans.get("hyp") and not ans.get("spec") and not model.get("error"):
